@@ -39,8 +39,8 @@ def rand_name(rng, avoid=()):
 
 
 def rand_text(rng, attr=False, maxlen=12):
-    """XML 1.0 characters; text without CR (parsers normalise it); attribute values may carry
-    tab / newline / CR (the exporters write them as character references)."""
+    """XML 1.0 characters, CR included (the exporters write CR in text, and tab / newline / CR in
+    attribute values, as character references)."""
     n = rng.randrange(0, maxlen)
     out = []
     for _ in range(n):
@@ -50,7 +50,7 @@ def rand_text(rng, attr=False, maxlen=12):
         elif r < 0.65:
             out.append(rng.choice(SPECIALS))
         elif r < 0.8:
-            out.append(rng.choice([" ", " ", "\t", "\n", "\r"]) if attr else rng.choice(WS_TEXT))
+            out.append(rng.choice([" ", " ", "\t", "\n", "\r"]) if attr else rng.choice(WS_TEXT + [" ", "\r"]))
         else:
             while True:
                 c = rng.choice([rng.randrange(0x20, 0x100), rng.randrange(0x100, 0xD800), rng.randrange(0xE000, 0xFFFE),
